@@ -21,6 +21,8 @@ pub fn run(name: &str, seed: u64, rest: &[String]) -> String {
         "sparse" => sparse_oracle(seed),
         "compress_rule" => compress_rule(seed),
         "mod_model" => mod_model(seed),
+        "patch_verify" => patch_verify(seed),
+        "bsd0_total" => bsd0_total(seed),
         "mod_full" => mod_full(),
         "build_lookup" => build_lookup(seed),
         _ => { let _ = rest; format!("{{\"oracle\":{},\"error\":\"unknown oracle\"}}", js(name)) }
@@ -364,4 +366,85 @@ fn build_lookup(seed: u64) -> String {
         if a.read_file("never-added.bin").is_ok() { return fail("build_lookup", format!("{:?}", names), "read_file(never-added.bin) is Ok".into(), "not found".into()); }
     }
     none("build_lookup", tried)
+}
+
+fn md5_of(d: &[u8]) -> [u8; 16] { use md5::{Digest, Md5}; let mut h = Md5::new(); h.update(d); h.finalize().into() }
+
+fn ptch(kind: &[u8; 4], size_before: u32, size_after: u32, md5_before: [u8; 16], md5_after: [u8; 16], payload: &[u8], patch_data_size: u32) -> Vec<u8> {
+    let mut v = Vec::new();
+    v.extend_from_slice(&0x48435450u32.to_le_bytes());
+    v.extend_from_slice(&patch_data_size.to_le_bytes());
+    v.extend_from_slice(&size_before.to_le_bytes());
+    v.extend_from_slice(&size_after.to_le_bytes());
+    v.extend_from_slice(&0x5f35444du32.to_le_bytes());
+    v.extend_from_slice(&40u32.to_le_bytes());
+    v.extend_from_slice(&md5_before);
+    v.extend_from_slice(&md5_after);
+    v.extend_from_slice(&0x4d524658u32.to_le_bytes());
+    v.extend_from_slice(&((payload.len() as u32) + 12).to_le_bytes());
+    v.extend_from_slice(kind);
+    v.extend_from_slice(payload);
+    v
+}
+
+/// apply_patch: Ok(r) only if md5(base) and md5(r) equal the declared digests (COPY patches, all four digest cases)
+fn patch_verify(seed: u64) -> String {
+    use wow_mpq::patch::{apply_patch, PatchFile};
+    let mut rng = Rng(seed ^ 0x9A7C);
+    let mut tried = 0;
+    for _ in 0..60 {
+        let nb = (rng.next() % 40) as usize; let na = (rng.next() % 40) as usize;
+        let base = rng.bytes(nb); let newd = rng.bytes(na);
+        for (bad_before, bad_after) in [(false, false), (true, false), (false, true), (true, true)] {
+            tried += 1;
+            let mut mb = md5_of(&base); let mut ma = md5_of(&newd);
+            if bad_before { mb[3] ^= 0x40; }
+            if bad_after { ma[11] ^= 0x01; }
+            let bytes = ptch(b"COPY", nb as u32, na as u32, mb, ma, &newd, na as u32);
+            let pf = match PatchFile::parse(&bytes) { Ok(p) => p, Err(e) => return fail("patch_verify", format!("PatchFile::parse of a well-formed COPY patch ({} -> {} bytes)", nb, na), format!("Err({})", e), "Ok".into()) };
+            let b2 = base.clone();
+            let r = catch(move || apply_patch(&pf, &b2));
+            match r {
+                Err(p) => return fail("patch_verify", format!("COPY patch {}->{} bytes", nb, na), format!("panic: {}", p), "Ok or Err".into()),
+                Ok(Ok(out)) => {
+                    if bad_before || bad_after { return fail("patch_verify", format!("COPY patch {}->{} bytes with {} digest altered", nb, na, if bad_before { "before" } else { "after" }), "Ok(bytes) - unverified bytes returned".into(), "Err".into()); }
+                    if out != newd { return fail("patch_verify", format!("COPY patch {}->{} bytes", nb, na), "different bytes".into(), "patch payload".into()); }
+                }
+                Ok(Err(e)) => { if !bad_before && !bad_after { return fail("patch_verify", format!("valid COPY patch {}->{} bytes", nb, na), format!("Err({})", e), "Ok(payload)".into()); } }
+            }
+        }
+    }
+    none("patch_verify", tried)
+}
+
+/// BSD0 patches with arbitrary bsdiff header fields: apply_patch returns Ok or Err, never panics
+fn bsd0_total(seed: u64) -> String {
+    use wow_mpq::patch::{apply_patch, PatchFile};
+    let mut rng = Rng(seed ^ 0xB5D0);
+    let mut tried = 0;
+    let specials: [u64; 8] = [0, 12, 24, u64::MAX, u64::MAX - 31, u64::MAX - 32, 1 << 63, (1 << 63) - 32];
+    for round in 0..400 {
+        let nb = (rng.next() % 8) as usize; let base = rng.bytes(nb);
+        let ctrl = if round < 64 { specials[round % 8] } else { rng.next() % 40 };
+        let data = if round < 64 { specials[(round / 8) % 8] } else { rng.next() % 16 };
+        let newsize = rng.next() % 12;
+        let mut raw = Vec::new();
+        raw.extend_from_slice(&0x3034464649445342u64.to_le_bytes());
+        raw.extend_from_slice(&ctrl.to_le_bytes());
+        raw.extend_from_slice(&data.to_le_bytes());
+        raw.extend_from_slice(&newsize.to_le_bytes());
+        let ne = (rng.next() % 40) as usize; let extra = rng.bytes(ne);
+        raw.extend_from_slice(&extra);
+        // RLE: 4-byte size header, then literal runs of <= 128 bytes
+        let mut payload = (raw.len() as u32).to_le_bytes().to_vec();
+        for ch in raw.chunks(128) { payload.push(0x80 | (ch.len() as u8 - 1)); payload.extend_from_slice(ch); }
+        let bytes = ptch(b"BSD0", base.len() as u32, newsize as u32, md5_of(&base), [0u8; 16], &payload, raw.len() as u32);
+        let pf = match PatchFile::parse(&bytes) { Ok(p) => p, Err(_) => continue };
+        tried += 1;
+        let b2 = base.clone();
+        if let Err(p) = catch(move || apply_patch(&pf, &b2).map(|v| v.len())) {
+            return fail("bsd0_total", format!("BSD0 patch: ctrl_block_size={:#x} data_block_size={:#x} new_file_size={} ({} payload bytes after the 32-byte bsdiff header), base {} bytes", ctrl, data, newsize, extra.len(), base.len()), format!("panic: {}", p), "Ok or Err".into());
+        }
+    }
+    none("bsd0_total", tried)
 }
